@@ -4,6 +4,7 @@ import (
 	"bytes"
 	"context"
 	"fmt"
+	"strings"
 	"time"
 
 	f3 "github.com/filecoin-project/go-f3"
@@ -106,6 +107,25 @@ func (f *forger) StartInstanceAt(instance uint64, _ time.Time) error {
 		return nil
 	}
 	f.done = true
+	if strings.HasPrefix(f.fc.Kind, "valid-then-") {
+		// a genuine quorum-signed decision first, then a forgery that copies its aggregate signature bytes
+		good, ok := f.forge(instance, "valid", f.fc.Signers, nil)
+		if !ok {
+			panic("first decision must be valid")
+		}
+		_, _ = f.host.ReceiveDecision(bg, good)
+		forged := *good
+		switch f.fc.Kind {
+		case "valid-then-reuse-signature-other-value":
+			v := good.Vote.Value
+			forged.Vote.Value = &gpbft.ECChain{TipSets: append(append([]*gpbft.TipSet{}, v.TipSets...), &gpbft.TipSet{Epoch: v.Head().Epoch + 1, Key: []byte("never-signed"), PowerTable: v.Head().PowerTable})}
+		case "valid-then-reuse-signature-other-signers":
+			forged.Signers = vfix.Bitfield(f.fc.Signers[:len(f.fc.Signers)-1])
+		}
+		*f.expected = true
+		_, _ = f.host.ReceiveDecision(bg, &forged)
+		return nil
+	}
 	j, valid := f.forge(instance, f.fc.Kind, f.fc.Signers, nil)
 	*f.expected = !valid
 	_, _ = f.host.ReceiveDecision(bg, j)
@@ -191,7 +211,7 @@ func runC19Sim(chk *vcommon.Check, thorough bool) {
 		for i := range all {
 			all[i] = i
 		}
-		for _, k := range []string{"valid", "wrong-instance", "wrong-phase", "wrong-round", "empty", "wrong-base", "bad-aggregate"} {
+		for _, k := range []string{"valid", "wrong-instance", "wrong-phase", "wrong-round", "empty", "wrong-base", "bad-aggregate", "valid-then-reuse-signature-other-value", "valid-then-reuse-signature-other-signers"} {
 			cases = append(cases, forgeCase{Powers: tb.powers, AdvPower: tb.adv, Kind: k, Signers: all})
 		}
 		for mask := 1; mask < 1<<members; mask++ {
